@@ -709,6 +709,9 @@ func (e *e2) compute(s e2src) cset {
 			pd = e.parkDelta(s, r.call, r.dir)
 		}
 		if len(r.ifs) == 0 {
+			if r.dir == "control" {
+				pd |= c0 // the result is not tested: Control may have failed without running f
+			}
 			parkAtCall[r.call.(ssa.Instruction)] = pd
 			continue
 		}
